@@ -82,6 +82,16 @@ fixed(
     "residual rank; sample PCov-CUR with dependent selected rows (only the latest pick was masked in pi_)",
 )
 
+# ------------------------------------------------------------------ C03 / C04 / C14
+fixed("C03", "be6e431", "PCovR(regressor='precomputed') with a 1-D Yhat: sample space raised a matmul error, and the modified Gram matrix was built from Y @ Y.T = scalar (silently wrong projections)")
+fixed("C14", "be6e431", "same defect seen through the projector algebra (1-D precomputed Yhat)")
+fixed(
+    "C04",
+    "375caf9",
+    "PCovR kept rounding-noise eigen-directions when eps*n*lambda_1 exceeded the absolute tol=1e-12 (data scale >~ 10) and n_components "
+    "exceeded the rank of the modified Gram matrix: mixing=0, 20x8 X, 2 targets, n_components=6 gave training loss 255.3 vs least-squares 230.9",
+)
+
 if __name__ == "__main__":
     out = {
         "comment": "Genuine defects of scikit-matter found by the monitors. status=known: recorded, not repaired, keyed by "
